@@ -49,11 +49,12 @@ enum Kind {
     H_CHECK_DONE, H_CLEAR_FAILS,
     H_OOM_SET, H_OOM_COUNTDOWN /* a count */, H_OOM_CLEAR,
     H_REPORT,       // a period: report() without clearing the buffer first (C14)
+    H_STASH,        // GlobalMemoryAllocatorStash save() ... restore() around nothing: the current allocators must come back unchanged
     H_SSB,          // free-standing SimpleStringBuffer op: a kind (0 add text of length b, 1 memory dump of b bytes, 2 setWriteLimit b, 3 resetWriteLimit, 4 clear)
     H_COUNT
 };
 static const char* const kNames[H_COUNT] = { "none", "alloc", "free", "realloc", "enable", "disable", "start_checking", "stop_checking", "mark", "stage_inc", "stage_dec", "stage_free",
-    "clear_accounting", "query", "flip", "bad_free", "fault", "typecheck", "wrap", "calloc", "strdup", "designate_n", "designate_at", "check_done", "clear_fails", "oom_set", "oom_countdown", "oom_clear", "report", "ssb" };
+    "clear_accounting", "query", "flip", "bad_free", "fault", "typecheck", "wrap", "calloc", "strdup", "designate_n", "designate_at", "check_done", "clear_fails", "oom_set", "oom_countdown", "oom_clear", "report", "stash", "ssb" };
 static const char* kindName(int k) { return k >= 0 && k < H_COUNT ? kNames[k] : "none"; }
 static int kindFromName(const char* s) { for (int i = 0; i < H_COUNT; i++) if (!strcmp(s, kNames[i])) return i; return H_NONE; }
 
@@ -275,7 +276,7 @@ struct Engine : public vf::Engine {
         if (w < 60) return (size_t)r.range(0, 4096);
         if (w < 75) { size_t p = (size_t)1 << r.range(3, 20); return p + (size_t)r.range(0, 18) - 9; }
         if (w < 80) { size_t p = (size_t)1 << r.range(28, 40); return p + (size_t)r.range(0, 48) - 24; }
-        if (w < 90) return SIZE_MAX - (size_t)r.below(64);
+        if (w < 90) return SIZE_MAX - (size_t)r.below(r.chance(1, 2) ? 64 : 200);      // the top values, across the edge of any plausible overflow guard
         if (w < 95) return SIZE_MAX / 2 + (size_t)r.range(0, 40) - 20;
         return (size_t)r.range(0, 600);
     }
@@ -287,6 +288,7 @@ struct Engine : public vf::Engine {
         int residueMode = -1;
         if (acc || mis) { unsigned x = (unsigned)w.below(10); if (x < 3) residueMode = (int)w.below(73); else if (x < 5) residueMode = 100 + (int)w.range(2, 4); }
         d.p["residue"] = residueMode; d.p["dirty"] = w.chance(3, 4);
+        d.p["threadsafe"] = (mis || acc) && w.chance(1, 4);       // the thread-safe wrappers on one thread: same behaviour, other code path
         d.p["fault_free"] = f.chance(1, 3);             // fault-free and fault-injecting configurations are separate sub-populations
         bool faultFree = d.pi("fault_free") != 0;
         int nOps = (int)w.small(1, acc ? 400 : (dia ? 200 : 120));
@@ -309,7 +311,7 @@ struct Engine : public vf::Engine {
                 else if (x < 85) o.kind = H_STAGE_FREE;
                 else if (x < 88) { o.kind = H_CLEAR; o.a = (int64_t)w.below(4); }
                 else if (x < 97) { o.kind = H_QUERY; o.a = (int64_t)w.below(4); o.b = (int64_t)w.chance(1, 3); }
-                else if (!faultFree) { if (w.chance(1, 2)) { o.kind = H_BADFREE; o.a = w.range(1, 4); o.b = (int64_t)w.below(3); o.c = (int64_t)w.below((uint64_t)nSlots); } else { o.kind = H_FAULT; o.a = 0; o.b = (int64_t)w.below(3); } }
+                else if (!faultFree) { if (w.chance(1, 2)) { o.kind = H_BADFREE; o.a = w.range(1, 4); o.b = (int64_t)w.below(3); o.c = (int64_t)w.below((uint64_t)nSlots); } else { o.kind = H_FAULT; o.a = w.chance(1, 2) ? 0 : 2; o.b = (int64_t)w.below(3); } }      // allocator returns NULL, or the platform realloc fails: the old block keeps its period, stage and number
                 else o.kind = H_QUERY;
             } else if (snd) {
                 if (x < 35) { o.kind = H_ALLOC; o.a = (int64_t)w.below((uint64_t)nSlots); o.b = (int64_t)w.below(3); o.c = (int64_t)boundarySize(w); o.phase = 2; o.s = siteFile((int)w.below(N_SITES)); o.s2 = w.chance(1, 3) ? "nothrow" : ""; }
@@ -327,7 +329,8 @@ struct Engine : public vf::Engine {
                 else if (x < 55) { o.kind = H_FLIP; o.a = (int64_t)w.below((uint64_t)nSlots); unsigned rg = (unsigned)w.below(10); o.b = rg < 3 ? 0 : (rg < 8 ? 1 : 2); o.c = (int64_t)w.below(600); o.d = (int64_t)w.below(256); if (w.chance(1, 8)) o.d = "BAS"[o.c % 3]; }
                 else if (x < 78) { o.kind = H_FREE; o.a = (int64_t)w.below((uint64_t)nSlots); o.b = w.chance(2, 3) ? 0 : w.range(1, 3); }
                 else if (x < 84) { o.kind = H_BADFREE; o.a = (int64_t)w.below(5); o.b = (int64_t)w.below(3); o.c = (int64_t)w.below(600); o.phase = (int)w.below(3) == 2 ? 2 : 0; }
-                else if (x < 88) { o.kind = H_TYPECHECK; o.a = (int64_t)w.below(2); }
+                else if (x < 87) { o.kind = H_TYPECHECK; o.a = (int64_t)w.below(2); }
+                else if (x < 88) o.kind = H_STASH;
                 else if (x < 94) { o.kind = H_WRAP; o.a = (int64_t)w.below(3); static const int wk[] = { 0, 0, 1, 2, 3, 5, 5 }; o.b = wk[w.below(7)]; }
                 else if (x < 97) { o.kind = H_REALLOC; o.a = (int64_t)w.below((uint64_t)nSlots); o.c = w.small(0, 100); }
                 else { o.kind = H_QUERY; o.a = (int64_t)w.below(4); }
@@ -467,6 +470,9 @@ struct Engine : public vf::Engine {
         if (W.period == mem_leak_period_disabled) W.det->disable(); else if (W.period == mem_leak_period_enabled) W.det->enable();
     }
     TestMemoryAllocator* currentFor(int fam) { return fam == 0 ? getCurrentNewAllocator() : (fam == 1 ? getCurrentNewArrayAllocator() : getCurrentMallocAllocator()); }
+    // the allocator the model attributes to a family on the global route: the one the history installed for it. Only the oom profile, whose
+    // C-level out-of-memory switch replaces the malloc allocator by design, follows whatever is current.
+    TestMemoryAllocator* modelFor(World& W, int fam) { return W.d->profile == "oom" ? currentFor(fam) : W.famAllocator[fam]; }
 
     // C15 model: does allocation (by allocator `fam`'s current allocator being the failable one) fail?
     bool modelFailable(World& W, const char* file, size_t line) {
@@ -508,6 +514,7 @@ struct Engine : public vf::Engine {
         CTX.bufBase = const_cast<char*>(det.report(mem_leak_period_checking));   // learn the buffer's address, then clear it
         det.startChecking(); det.disable();
         FailableMemoryAllocator failable("Failable", "falloc", "ffree");
+        if (d.pi("threadsafe")) { MemoryLeakWarningPlugin::turnOnThreadSafeNewDeleteOverloads(); fired("threadsafe_overloads_single_thread"); }
 
         if (d.groups.empty()) { HEAP.active = false; MemoryLeakWarningPlugin::setGlobalDetector(oldDet, oldRep); r.hash = h.h; return; }
         const Group& H = d.groups[0];
@@ -531,7 +538,7 @@ struct Engine : public vf::Engine {
                 if (o.kind == H_CALLOC) size = (size_t)o.b * (size_t)o.c;
                 if (o.kind == H_STRDUP) { src.assign((size_t)o.c, 'x'); for (size_t k = 0; k < src.size(); k++) src[k] = (char)('a' + k % 23); size_t nArg = o.b <= -2 ? SIZE_MAX - (size_t)(-2 - o.b) : (size_t)o.b; size = o.b == -1 ? src.size() + 1 : (nArg < src.size() ? nArg : src.size()) + 1; }
                 bool overflowingCalloc = o.kind == H_CALLOC && o.b != 0 && (size_t)o.c > SIZE_MAX / (size_t)o.b;
-                TestMemoryAllocator* alloc = route == 2 ? currentFor(fam) : W.famAllocator[fam];
+                TestMemoryAllocator* alloc = route == 2 ? modelFor(W, fam) : W.famAllocator[fam];
                 size_t overhead = GUARD + 8 + sizeof(MemoryLeakDetectorNode);
                 bool nothrowUsed = o.kind == H_ALLOC && route == 2 && fam < 2 && o.s2 == "nothrow" && HEAP.failMallocIn < 0 && size <= ((size_t)48 << 20) && size <= SIZE_MAX - overhead;
                 if (nothrowUsed) { file = "<unknown>"; line = 0; }      // the nothrow forms carry no location
@@ -583,7 +590,7 @@ struct Engine : public vf::Engine {
                 if (!S.live) break;
                 clearBuffer(W);
                 int fam = o.b == 0 ? S.family : (int)((o.b - 1) % 3);
-                TestMemoryAllocator* fa = S.route == 2 ? currentFor(fam) : W.famAllocator[fam];
+                TestMemoryAllocator* fa = S.route == 2 ? modelFor(W, fam) : W.famAllocator[fam];
                 int cat = S.tracked ? expectedCategory(W, S, fa) : 0;
                 size_t bad = 0; bool patOk = S.p ? checkPat(S, S.size, &bad) : true; (void)patOk;
                 HEAP.watchFree = (S.route == 2 && S.tracked) ? S.p : 0; HEAP.watchSize = S.size; HEAP.watchPat = S.pat; HEAP.watchSeen = false; HEAP.watchLeft = 0;
@@ -616,7 +623,7 @@ struct Engine : public vf::Engine {
                 size_t size = o.c == -1 ? S.size : (size_t)o.c; size_t overhead = GUARD + 8 + sizeof(MemoryLeakDetectorNode);
                 bool tooBig = size > ((size_t)48 << 20) || size > SIZE_MAX - overhead;
                 bool expectNull = HEAP.failReallocIn == 0 || tooBig;
-                TestMemoryAllocator* fa = S.route == 2 ? currentFor(2) : W.famAllocator[2];
+                TestMemoryAllocator* fa = S.route == 2 ? modelFor(W, 2) : W.famAllocator[2];
                 int cat = S.tracked ? expectedCategory(W, S, fa) : 0;
                 HEAP.userRequest = size; HEAP.armed = true; HEAP.limitHit = false;
                 char* np = 0; size_t keep = S.size < size ? S.size : size;
@@ -712,7 +719,7 @@ struct Engine : public vf::Engine {
             }
             case H_BADFREE: {
                 clearBuffer(W);
-                int fam = (int)(o.b % 3); TestMemoryAllocator* fa = o.phase == 2 ? currentFor(fam) : W.famAllocator[fam];
+                int fam = (int)(o.b % 3); TestMemoryAllocator* fa = o.phase == 2 ? modelFor(W, fam) : W.famAllocator[fam];
                 char* p = 0; char stackObj[32]; int cat = 0;
                 switch (o.a) {
                 case 0: p = 0; cat = -1; break;
@@ -780,6 +787,7 @@ struct Engine : public vf::Engine {
             case H_OOM_SET: cpputest_malloc_set_out_of_memory(); W.oomAll = true; W.oomCountdown = -1; fired("c_out_of_memory"); break;
             case H_OOM_COUNTDOWN: cpputest_malloc_set_out_of_memory_countdown((int)o.a); W.oomCountdown = (int)o.a; if (o.a == 0) W.oomAll = true; fired("c_out_of_memory_countdown"); break;
             case H_OOM_CLEAR: if (W.oomAll || W.oomCountdown >= 0) { cpputest_malloc_set_not_out_of_memory(); W.oomAll = false; W.oomCountdown = -1; for (int k = 2; k < 3; k++) if (W.failableFor[k]) setCurrentMallocAllocator(&failable); } break;
+            case H_STASH: { GlobalMemoryAllocatorStash st; st.save(); st.restore(); probe("allocator_stash_round_trip"); break; }
             case H_SSB: {
                 char text[800]; size_t n = (size_t)o.b < sizeof text - 1 ? (size_t)o.b : sizeof text - 1; memset(text, 'q', n); text[n] = 0;
                 if (o.a == 0) ssb.add("%s", text); else if (o.a == 1) ssb.addMemoryDump(text, n); else if (o.a == 2) ssb.setWriteLimit((size_t)o.b); else if (o.a == 3) ssb.resetWriteLimit(); else ssb.clear();
@@ -812,6 +820,7 @@ struct Engine : public vf::Engine {
         if (!CTX.reports.empty()) fail(W, "C05", "release_at_end", sg("got", CTX.reports[0].first.c_str()), sfmt("releasing the surviving blocks raised %zu reports", CTX.reports.size()));
         if (CTX.bufOverflow) fail(W, "C14", "buffer_bounds", sg("after", "end"), CTX.bufOverflowDetail);
         if (W.oomAll || W.oomCountdown >= 0) cpputest_malloc_set_not_out_of_memory();
+        MemoryLeakWarningPlugin::turnOnDefaultNotThreadSafeNewDeleteOverloads();
         failable.clearFailedAllocs();
         stash.restore();
         setCurrentNewAllocatorToDefault(); setCurrentNewArrayAllocatorToDefault(); setCurrentMallocAllocatorToDefault();
@@ -827,6 +836,7 @@ struct Engine : public vf::Engine {
 
     void simplifications(const Desc& d, Vec<Desc>& out) {
         if (d.pi("residue", -1) != -1) { Desc c = d; c.p["residue"] = -1; out.push_back(c); }
+        if (d.pi("threadsafe")) { Desc c = d; c.p["threadsafe"] = 0; out.push_back(c); }
         if (d.groups.empty()) return;
         const Group& H = d.groups[0];
         for (size_t i = 0; i < H.ops.size(); i++) {
